@@ -24,11 +24,11 @@ RULE = (
 )
 COMPONENTS = {
     "real": ["all of sqlglot in real threads (lazy dialect import, dialect metaclass, optimizer lazy loading, generator dispatch cache, tokenizer/parser/generator)",
-             "CPython importlib (module locks, import lock) — pre-emptible at line granularity, never while the global import lock is held"],
+             "CPython importlib (module locks made cooperative through the lock seam; its own frames are atomic between lock operations)"],
     "stub": ["threading.Lock / RLock / _thread.allocate_lock replaced by cooperative wrappers that park the thread in the simulator (sim/threadsim/seam.py)"],
 }
 ASSUMPTIONS = [
-    "pre-emption only between source lines / at function entry of sqlglot and importlib frames; C-level operations are atomic (as under a GIL); no opcode-level races",
+    "pre-emption only between source lines / at function entry of sqlglot's own frames; C-level operations and CPython's importlib are atomic between lock operations; no opcode-level races",
     "cold start = sqlglot imported, no dialect or rule module loaded; the very first `import sqlglot` is not raced",
     "reference = the same call alone, single-threaded, untraced, in a cold child of the same template (same hash seed)",
     "pure-Python package only (no mypyc build)",
@@ -219,7 +219,68 @@ def prepare(prop, tier, seed):
     with cf.ProcessPoolExecutor(max_workers=w, mp_context=multiprocessing.get_context("fork")) as ex:
         for part in ex.map(_prepare_chunk, chunks):
             _REFS.update(part)
-    return {"reference_calls": len(POOL), "reference_executions": 2 * len(POOL) * len(seeds), "hash_seeds": seeds}
+    return {"reference_calls": len(POOL), "reference_executions": 2 * len(POOL) * len(seeds), "hash_seeds": seeds, "extra_records": sweep_records(seed, tier)}
+
+
+# measured trace events per item of each micro entry point (bulk streams are sized by an event budget, not by a count)
+MICRO_COST = {"format_time": 200, "json_path": 1400, "normalize_identifier": 300, "to_table": 1900, "data_type": 1900, "tokenize": 1000, "dialect_settings": 60, "column_names": 4000}
+
+
+def micro_n(what, events):
+    return max(40, min(3000, events // MICRO_COST.get(what, 1000)))
+
+
+def sweep_records(seed, tier):
+    """Systematic part of a batch, so that no dialect depends on being drawn by chance: for EVERY dialect
+    (a) cold first use by three threads at once, scheduled by publication bias only (a thread runs undisturbed until something it
+        did becomes visible in a registry, then the others run) - what exposes a class that is usable before its module has
+        finished, a table snapshotted too early, a registry entry published half-built;
+    (b) warm write-focus contention on that dialect's generator for three kinds of per-generator state (anonymous alias counter,
+        unsupported-message list under RAISE, identifier-quoting toggles around function signatures)."""
+    from sim.corpus import corpus
+
+    fams = corpus.stateful_families()
+    kinds = [("alias", fams["anon_alias"], {}), ("unsupported", fams["unsupported"] + [(None, "SELECT a FROM t"), (None, "SELECT a FROM t")], {"unsupported_level": "RAISE"}),
+             ("signature", fams["signature"] + [(None, "SELECT x FROM t")], {"identify": True})]
+    out = []
+    k = 0
+    reps = 2 if tier == "quick" else 6
+    for d in ALL_DIALECTS:
+        for rep in range(reps):
+            k += 1
+            rng = random.Random(common.derive_seed("C19-sweep", seed, k))
+            scripts = [[{"op": "generate", "sql": WIDE1, "read": None, "write": d, "opts": {}}], [{"op": "generate", "sql": WIDE2, "read": None, "write": d, "opts": {}}],
+                       [{"op": "generate", "sql": WIDE1, "read": None, "write": d, "opts": {}}]]
+            if rep % 2:
+                scripts[1] = [{"op": "dialect_get", "name": d}, scripts[1][0]]
+            out.append({"engine": "threadsim", "config": {"warm": False, "hashseed": HASHSEEDS[tier][rep % len(HASHSEEDS[tier])], "strategy": "random", "sched_seed": rng.getrandbits(48),
+                                                           "mean_gap": 3000000, "pct_depth": 1, "p_cold": 0.0, "gc_rate": 0.0, "p_pub": 1.0, "pub_watch": "registries", "sweep": "cold-first-use", "importlib_steps": False},
+                        "scripts": scripts})
+        for kind, stmts, opts in kinds:
+            k += 1
+            rng = random.Random(common.derive_seed("C19-sweep", seed, k))
+            pick = [stmts[rng.randrange(len(stmts))] for _ in range(3)]
+            scripts = [[{"op": "generate", "sql": q, "read": rd, "write": d, "opts": dict(opts)} for rd, q in (pick[rng.randrange(3)] for _ in range(3))] for _ in range(3)]
+            out.append({"engine": "threadsim", "config": {"warm": True, "hashseed": 0, "strategy": "random", "sched_seed": rng.getrandbits(48), "mean_gap": rng.choice([10, 100, 1000]),
+                                                           "pct_depth": 1, "p_cold": 0.0, "gc_rate": 0.0, "sweep": "write-focus:" + kind, "importlib_steps": False},
+                        "scripts": scripts})
+    # (c) micro contention on every small entry point: one thread streams thousands of distinct arguments (any bounded memo
+    #     overflows several times), two threads keep asking for two popular ones
+    from sim.threadsim.child import MICRO_KINDS
+
+    for what in MICRO_KINDS:
+        for rep in range(4 if tier == "quick" else 12):
+            k += 1
+            rng = random.Random(common.derive_seed("C19-sweep", seed, k))
+            md = rng.choice([None, "duckdb", "snowflake", "bigquery", "postgres", "mysql", "spark", "tsql", "oracle", "clickhouse", "presto", "hive"])
+            extra = {"shared_schema": True, "schema": "xyz"} if what == "column_names" else {}
+            n_ = micro_n(what, 400000)
+            scripts = [[{"op": "bulk", "what": what, "dialect": md, "start": 10, "n": n_, **extra}]]
+            scripts += [[{"op": "micro", "what": what, "dialect": md, "i": rng.randrange(4), "repeat": n_ // 2, **extra} for _ in range(2)] for _ in range(2)]
+            out.append({"engine": "threadsim", "config": {"warm": True, "hashseed": 0, "strategy": "random", "sched_seed": rng.getrandbits(48), "mean_gap": rng.choice([3, 10, 30, 100, 300]),
+                                                           "pct_depth": 1, "p_cold": 0.0, "gc_rate": 0.0, "sweep": "micro:" + what, "importlib_steps": False},
+                        "scripts": scripts})
+    return out
 
 
 def worker_init(prop, tier):
@@ -289,12 +350,14 @@ def generate(prop, run_seed, tier):
         md = rng.choice([None, "duckdb", "snowflake", "bigquery", "postgres", "mysql", "spark", "tsql", "oracle", "clickhouse", "presto", "hive"])
         scripts = []
         extra = {"shared_schema": True, "schema": "xyz"} if what == "column_names" else {}
+        bulk_n = micro_n(what, rng.choice([60000, 150000, 400000]))
         for ti in range(n):
             if ti == 0 and rng.random() < 0.7:
-                scripts.append([{"op": "bulk", "what": what, "dialect": md, "start": 10, "n": rng.choice([60, 150, 300, 300, 600]), **extra}])
+                scripts.append([{"op": "bulk", "what": what, "dialect": md, "start": 10, "n": bulk_n, **extra}])
             else:
+                # the threads asking for popular values live about as long as the streaming one (a miss costs a few times a hit)
                 pop = [rng.randrange(4) for _ in range(2)]
-                scripts.append([{"op": "micro", "what": what, "dialect": md, "i": pop[rng.randrange(2)], **extra} for _ in range(rng.choice([3, 5, 8]))])
+                scripts.append([{"op": "micro", "what": what, "dialect": md, "i": pop[rng.randrange(2)], "repeat": bulk_n * rng.choice([1, 2]) // 2, **extra} for _ in range(2)])
     elif not warm and rng.random() < 0.06:
         # registry-shaped run: one thread loads (nearly) every dialect, another enumerates the registry, the others first-use
         # the dialects that were left out
@@ -314,7 +377,9 @@ def generate(prop, run_seed, tier):
         "mean_gap": (rng.choice([3, 10, 30, 100, 300, 1000]) if warm else rng.choice([30, 300, 3000, 30000, 300000])) if strat == "random" else rng.choice([30000, 300000, 3000000]),
         "pct_depth": rng.choice([1, 2, 3]),
         "p_cold": rng.choice([0.02, 0.1, 0.3]) if strat == "cold" else 0.0,
-        "p_pub": rng.choice([0.0, 0.3, 0.7]) if (strat in ("random", "cold") and not warm) else 0.0,
+        "p_pub": rng.choice([0.0, 0.5, 1.0]) if (strat in ("random", "cold") and not warm) else 0.0,
+        "pub_watch": "registries",
+        "importlib_steps": False,
         "gc_rate": rng.choice([0.0, 0.0, 0.05]),
     }
     return {"engine": "threadsim", "config": cfg, "scripts": scripts}
